@@ -1,6 +1,6 @@
 """Property -> rules table. Each rule callable: (prog, tier, repo) -> [RuleResult]."""
 from .rules import traversal_instances as TI
-from .rules import gate, lookup_unwrap, heap, witness, incremental, optimizer, const_arith, shape, backend, printer_rules, comment_linear, enum_evidence, ssa_shared, lex_bounds, gc_rules, scope, eval_order, guard_table, relation, type_walker
+from .rules import gate, lookup_unwrap, heap, witness, incremental, optimizer, const_arith, shape, backend, printer_rules, comment_linear, enum_evidence, ssa_shared, lex_bounds, gc_rules, scope, eval_order, guard_table, relation, type_walker, str_slice
 
 PROPERTIES = {}
 
@@ -171,8 +171,11 @@ prop('C05', COMMON +
      'Lexer::bump in scope, and an unproved obligation or unsupported construct is reported (fail closed). Clause "a '
      'syntax error is always reported when the parser had to invent tokens": FABRICATE-REPORTS (every placeholder '
      'identifier / dummy literal / `any` annotation is dominated or post-dominated by a report) and INT-RANGE-REPORT. '
-     'SHAPE-PRODUCER: parser never builds a tree the checker aborts on. Does not decide str char boundaries, '
+     'SHAPE-PRODUCER: parser never builds a tree the checker aborts on. STR-SLICE: outside the lexer every byte-offset '
+     'slice/truncate/split of a string takes its offsets from that same string (len/find/...), never from a Location column '
+     'or a parameter. BINDER-WRITE: every typed identifier pattern the checker produces - also on its recover-as-any paths - is '
+     'dominated by recording a type for the identifier (get_captured unwraps it). Does not decide '
      'termination of error recovery, or stack depth.',
-     [lex_bounds.run, lex_bounds.run_int_range, shape.run_fabricate, shape.run_shape],
+     [lex_bounds.run, lex_bounds.run_int_range, shape.run_fabricate, shape.run_shape, str_slice.run, gate.run_binder_write],
      ['lengths of in-memory slices are < 2^63 (usize additions on lengths do not overflow)',
       'A-05.1: parenthesised lists reaching a Tuple construction are non-empty'])
